@@ -64,7 +64,7 @@ def plan(tier, seed):
     places = PLACEMENTS[::4] if tier == 'quick' else PLACEMENTS
     scs += [dict(part='B', cell=ci, cl=k, place=list(pl)) for ci in range(len(GCELLS)) for k in range(4) for pl in places]
     return dict(scenarios=scs, exhaustive=True, chunk=2,
-                menus=dict(symbols=len(ELS), distances=['cutoff-1e-3', 'cutoff+1e-3'], pair_cells=[c[0] for c in PCELLS], placements=[p[0] for p in PLACES], order=['a,b', 'b,a'],
+                menus=dict(symbols=len(ELS), distances=['cutoff-1e-3', 'cutoff+1e-3', 'exactly the cutoff (where the tie is exact in floating point)'], pair_cells=[c[0] for c in PCELLS], placements=[p[0] for p in PLACES], order=['a,b', 'b,a'],
                            assembly_cells=[c[0] for c in GCELLS], assemblies=4, assembly_placements=len(places), shifts=shifts, narrow_cells=[c[0] for c in NCELLS], narrow_pairs=['-'.join(p) for p in NPAIRS], narrow_grid='fractional separations %r^2 x {0, 0.3, 0.5} at two anchors' % (NGRID,), permutations=['reverse', 'rotate', 'interleave']),
                 bounds=dict(), rule='part A: one scenario per first symbol, all partners/distances/placements/cells/orders inside; non-trivial = the pair is bonded only through a periodic image',
                 assumptions=['radius and non-metal tables frozen at the pinned commit (mc/ref/bonds.py)', 'cells have perpendicular widths > 10.4 (pairs) / 7.4 (assemblies) > the largest cutoff 5.2',
@@ -109,6 +109,21 @@ def run(sc, ctx):
                         out['outcomes'][key] = out['outcomes'].get(key, 0) + 1
                         if crossed and sign < 0:
                             out['nontrivial'] += 1
+            # exact tie: a separation that is equal to the cutoff in floating point is not "below" it
+            for cname, cell in PCELLS[:2]:
+                for axis in range(3):
+                    p1 = np.array([2.0, 3.0, 4.0]) if cell is not None else np.zeros(3)
+                    p2 = p1.copy(); p2[axis] = p1[axis] + c
+                    if float(np.sqrt(((p2 - p1) ** 2).sum())) != c or (p2[axis] - p1[axis]) != c:
+                        continue          # the tie is not exact for this pair / placement: nothing to decide
+                    for order in (0, 1):
+                        e = [a, b] if order == 0 else [b, a]; P = np.array([p1, p2]) if order == 0 else np.array([p2, p1])
+                        got, err = call(lambda: detect_bonds(mkatoms(e, P, cell)))
+                        out['evals'] += 1; out['compared'] += 1
+                        if err or as_pairs(got) != []:
+                            out['violations'].append(viol('pair-rule', 'exact-tie', '%s-%s exactly at the cutoff %.17g (%s): detected %r, but the distance is not below the cutoff' % (e[0], e[1], c, cname, err[0] if err else as_pairs(got)), sc,
+                                                          elements=e, positions=P.tolist(), cell=None if cell is None else cell.tolist()))
+                    out['outcomes']['exact tie'] = out['outcomes'].get('exact tie', 0) + 1
             out['hashes'].add(h64((a, b)))
         if sc['a'] == 5:
             out['samples'] = [dict(part='A', pair=[a, 'Zr'], cutoff=cutoff(a, 'Zr'), placements=[p[0] for p in PLACES])]
